@@ -1,6 +1,7 @@
 """C04 - 1014 blocking: output is well-formed and data-exact for every write sequence."""
 import io
 
+from .. import sentinel
 from ..ref import blocking as ref
 
 ID = 'C04'
@@ -116,6 +117,14 @@ def cases(ctx):
                'content': rng.choice(['coded', 'coded', 'filly'])}
 
 
+def peek(obj, name):
+    """An internal attribute read for the evidence file only: absent or renamed means None, never a failure."""
+    try:
+        return getattr(obj, name, None)
+    except Exception:      # noqa
+        return None
+
+
 def drive(ctx, writes, fin, src=None):
     """Run the real blocker.  Returns (outcome, file bytes | detail, remaining_chars trail)."""
     m = ctx.mciipm
@@ -129,7 +138,7 @@ def drive(ctx, writes, fin, src=None):
         for n in writes:
             b.write(_CODED[pos:pos + n])
             pos += n
-            trail.append(b.remaining_chars)
+            trail.append(peek(b, 'remaining_chars'))
         if fin == 'finalise':
             b.finalise()
         elif fin == 'seek':
@@ -137,7 +146,7 @@ def drive(ctx, writes, fin, src=None):
         else:
             b.close()
         return pos
-    kind, val = ctx.call(body, budget=20000 + 200 * (len(writes) + sum(writes) // 1012))
+    kind, val = ctx.call(body, budget=sentinel.budget_bulk(sum(writes) + 1014 * len(writes) + 2028))
     if kind != 'ok':
         return kind, val, trail
     out = f.kept if f.closed else f.getvalue()
@@ -147,7 +156,7 @@ def drive(ctx, writes, fin, src=None):
 def oneshot(ctx, total, data=None):
     m = ctx.mciipm
     src, dst = io.BytesIO((data or _CODED)[:total]), io.BytesIO()
-    kind, val = ctx.call(m.block_1014, src, dst, budget=20000 + 100 * (total // 1012 + 1))
+    kind, val = ctx.call(m.block_1014, src, dst, budget=sentinel.budget_bulk(total + 2028))
     if kind != 'ok':
         return kind, val
     return 'ok', dst.getvalue()
